@@ -39,6 +39,14 @@ macro_rules! sha2_impl {
                 self.0.reset(&$iv);
             }
 
+            /// Verification hook (only with `--cfg crrl_verif`): advance the
+            /// count of processed bytes by `nblocks` whole blocks without
+            /// processing any data.
+            #[cfg(crrl_verif)]
+            pub fn verif_skip_blocks(&mut self, nblocks: u64) {
+                self.0.verif_skip_blocks(nblocks);
+            }
+
             /// An alias on `self.digest()` (for syntactic compatibility).
             pub fn finalize(&mut self) -> [u8; $size >> 3] {
                 self.digest()
@@ -121,6 +129,11 @@ impl<const SZ: usize> SHA2Small<SZ> {
             buf: [0u8; 64],
             ctr: 0,
         }
+    }
+
+    #[cfg(crrl_verif)]
+    fn verif_skip_blocks(&mut self, nblocks: u64) {
+        self.ctr = self.ctr.wrapping_add(nblocks << 6);
     }
 
     fn update(&mut self, src: &[u8]) {
@@ -298,6 +311,11 @@ impl<const SZ: usize> SHA2Big<SZ> {
             buf: [0u8; 128],
             ctr: 0,
         }
+    }
+
+    #[cfg(crrl_verif)]
+    fn verif_skip_blocks(&mut self, nblocks: u64) {
+        self.ctr = self.ctr.wrapping_add((nblocks as u128) << 7);
     }
 
     fn update(&mut self, src: &[u8]) {
